@@ -20,8 +20,8 @@ RULE = ("seeded tables: packed dtypes of 1-8 fields from i1..u8, f4, f8, bool, c
 TRUSTED = ["numpy ndarray.tobytes / dtype equality", "python ast-free dict/list equality for header values"]
 ASSUMPTIONS = ["at least one row; packed dtypes; header keys are strings other than the reserved underscore names",
                "header values are finite Python literals (no NaN)"]
-REQUIRED = {"quick": {"C01.file": 250, "C01.read": 1200, "C01.header": 500},
-            "thorough": {"C01.file": 5000, "C01.read": 25000, "C01.header": 10000}}
+REQUIRED = {"quick": {"C01.file": 1000, "C01.read": 6000, "C01.header": 2500},
+            "thorough": {"C01.file": 10000, "C01.read": 70000, "C01.header": 25000}}
 WROUTES = ["sfile.write", "SFile.write", "io.write", "Recfile.write", "recfile.write"]
 
 
@@ -29,7 +29,7 @@ BOUNDARIES = [512, 1024, 2048, 4096, 8192, 12288, 16384, 65536]
 
 
 def cases(seed, tier):
-    n = 320 if tier == "quick" else 6400
+    n = 640 if tier == "quick" else 9600
     rng = np.random.default_rng([seed, 1])
     for i in range(n):
         yield {"family": ["dtype-zoo", "headers", "rows", "layout"][i % 4], "wroute": WROUTES[(i // 4) % 5],
